@@ -82,7 +82,23 @@ def plan_c05(ctx):
     return r
 
 
+def run_tlaps(ctx, module):
+    """TLAPS proof of an unbounded lemma of the spec; any obligation left unproved is a tool error"""
+    import subprocess, re, shutil
+    spec = os.path.join(os.path.dirname(os.path.dirname(os.path.abspath(__file__))), 'spec')
+    shutil.rmtree(os.path.join(spec, '.tlacache'), ignore_errors=True)
+    r = subprocess.run(['timeout', '900', 'tlapm', '--threads', '8', module + '.tla'], cwd=spec, capture_output=True, text=True)
+    out = r.stdout + r.stderr
+    shutil.rmtree(os.path.join(spec, '.tlacache'), ignore_errors=True)
+    m = re.search(r'All (\d+) obligations? proved', out)
+    if not m:
+        raise ctx['ToolError']('TLAPS did not prove %s: %s' % (module, out[-600:]))
+    ctx['log']('TLAPS %s: all %s obligations proved' % (module, m.group(1)))
+    return int(m.group(1))
+
+
 def plan_c20(ctx):
+    nobl = run_tlaps(ctx, 'A5OrderProof') if ctx['tier'] == 'thorough' else None
     r = standard(ctx, [dict(module='MC_Order')],
                  rule='sorted u64 columns of every cell of res 1..5 (quick) / 1..7 (thorough); every consecutive same-res pair with all '
                       'ancestors and descendant extremes; one mixed-resolution sorted list of all cells res 1..5/6 and local mixed lists '
@@ -90,6 +106,9 @@ def plan_c20(ctx):
                       'distinct_nontrivial = number of ancestor pairs checked',
                  assumptions=['resolution and canonical form of an ID are read by the spec decoder (C05)'])
     r['distinct_nontrivial'] = int(r['summary'].get('pairs', 0))
+    if nobl is not None:
+        r['extra'] = {'tlaps_module': 'spec/A5OrderProof.tla (PrefixMonotone, SubtreeContiguous: unbounded string lengths)',
+                      'tlaps_obligations': nobl, 'tlaps_discharged': nobl}
     return r
 
 
